@@ -176,7 +176,10 @@ class TensorMesh(discretize.TensorMesh if discretize else BaseMesh):
             equal *= np.allclose(self.h[0], mesh.h[0], atol=0)
             equal *= np.allclose(self.h[1], mesh.h[1], atol=0)
             equal *= np.allclose(self.h[2], mesh.h[2], atol=0)
-            equal *= np.allclose(self.origin, mesh.origin, atol=0)
+            # Compare the origins relative to the cell widths, not relative
+            # to the coordinates (which could be far away from zero).
+            atol = 1e-5*min(h.min() for h in self.h)
+            equal *= np.allclose(self.origin, mesh.origin, rtol=0, atol=atol)
 
         return bool(equal)
 
